@@ -134,6 +134,7 @@ struct Conn {
 std::shared_ptr<Conn> client_connect(const std::string &addr,size_t cap_to_server,size_t cap_to_client);
 bool is_listening(const std::string &addr);
 int open_sim_fds();                     // number of simulated descriptors currently open
+bool reset_accepted_stream(uint64_t pick); // fault: one established (accepted) connection is reset, both ends see ECONNRESET
 int open_accepted_fds();                // ... of which were returned by accept() (server side connections)
 std::string describe_fds();
 
